@@ -63,6 +63,12 @@ def write_graph(root, files, rng, fault=None):
         lines = []
         for k in range(f["ops"]):
             lines.append("SET(R{}, {})".format(1 + (i % 8), i * 100 + k))
+            if rng.random() < 0.35:
+                # references to a label that the root file defines at its end: resolved per occurrence
+                lines.append(rng.choice(["BZR(theend)", "BRR(theend)", "BNZ(theend)", "SET(R9, theend)", "CALL(R12, theend)"]))
+        if i == 0:
+            lines.append("LABEL(theend)")
+            lines.append("HALT()")
         # includes are placed between ops
         for j in f["includes"]:
             pos = rng.randint(0, len(lines))
@@ -149,6 +155,29 @@ def check(seed, n):
                 violations.append({"property": "C16", "stream": "includes", "sig": "include:splice", "case": case,
                                    "what": "operations (text, file, line) differ from textual splicing: got {} ... expected {} ...".format(got_n[:3], want[:3])})
                 continue
+            if fault is None:
+                # "as if the contents stood in its place": the checked program equals that of the flattened text
+                import hera.checker as C
+                flat = "\n".join(t for t, i, ln in exp) + "\n"
+                with proto.Capture() as cap:
+                    try:
+                        prog_a, cm_a = C.check(ops, st)
+                        ops_b, pm_b = P.parse(flat, settings=progrun.make_settings())
+                        prog_b, cm_b = C.check(ops_b, progrun.make_settings())
+                        problem = None
+                    except Exception as e:  # noqa
+                        problem = "checking raised " + type(e).__name__
+                    cap.take()
+                if problem is None:
+                    sig_a = ([e[0] for e in cm_a.errors], [(o.name, list(o.args)) for o in prog_a.code])
+                    sig_b = ([e[0] for e in cm_b.errors], [(o.name, list(o.args)) for o in prog_b.code])
+                    if sig_a != sig_b:
+                        k = next((j for j, (x, y) in enumerate(zip(sig_a[1], sig_b[1])) if x != y), None)
+                        problem = "the program differs from that of the textually flattened source (errors {} vs {}; first differing instruction {}: {} vs {})".format(
+                            sig_a[0][:1], sig_b[0][:1], k, sig_a[1][k] if k is not None and k < len(sig_a[1]) else None,
+                            sig_b[1][k] if k is not None and k < len(sig_b[1]) else None)
+                if problem:
+                    violations.append({"property": "C16", "stream": "includes", "sig": "include:program", "case": case, "what": problem})
             if fault is not None:
                 import hera.checker as C
                 prog, cm = C.check(ops, st)
@@ -219,6 +248,37 @@ def replay_case(case):
         got = [(str(o).replace(" ", ""), os.path.normpath(str(o.loc.path)), o.loc.line) for o in ops]
         if got != want:
             return "operations (text, file, line) differ from textual splicing: got {} ... expected {} ...".format(got[:3], want[:3])
+        import hera.checker as C
+        flat = "\n".join(t for t, pth, ln in want) + "\n"
+        flat = "\n".join(line for line in open(first).read().split("\n") if False) or flat
+        with proto.Capture() as cap:
+            try:
+                # (operation texts were compared without blanks; re-read them with blanks from the files)
+                texts = []
+
+                def walk(path):
+                    for l in open(path).read().split("\n"):
+                        t = l.split("//")[0].strip()
+                        if not t:
+                            continue
+                        import re as _re
+                        m = _re.match(r'^#include\s+"(.*)"$', t)
+                        if m:
+                            walk(os.path.normpath(os.path.join(os.path.dirname(path), m.group(1))))
+                        else:
+                            texts.append(t)
+                walk(first)
+                prog_a, cm_a = C.check(ops, st)
+                ops_b, pm_b = P.parse("\n".join(texts) + "\n", settings=progrun.make_settings())
+                prog_b, cm_b = C.check(ops_b, progrun.make_settings())
+            except Exception as e:  # noqa
+                cap.take()
+                return "checking raised " + type(e).__name__
+            cap.take()
+        sig_a = ([e[0] for e in cm_a.errors], [(o.name, list(o.args)) for o in prog_a.code])
+        sig_b = ([e[0] for e in cm_b.errors], [(o.name, list(o.args)) for o in prog_b.code])
+        if sig_a != sig_b:
+            return "the program differs from that of the textually flattened source"
         return None
     finally:
         shutil.rmtree(root, ignore_errors=True)
